@@ -192,9 +192,9 @@ pub fn function_name() -> Report {
 // ------------------------------------------------------------------ C20
 pub fn ram_bundle() -> Report {
     use sourcemap::ram_bundle::{is_ram_bundle_slice, RamBundle};
-    let bound = "indexed bundles with 0..3 table slots (each empty, or a module of length 1..3 incl. a non-UTF-8 one, in either physical order), non-empty startup code of length 1..2; every truncation of each bundle and every single-field corruption from {0, 1, 0x7fffffff, 0xffffffff}";
+    let bound = "indexed bundles with 0..3 table slots (each empty, or a module of stored length 1..4 incl. a non-UTF-8 one and one that is only its trailing NUL, in either physical order), non-empty startup code of length 1..2; every truncation of each bundle and every single-field corruption from {0, 1, 0x7fffffff, 0xffffffff}";
     let mut cases = 0u64;
-    let mods: Vec<Option<Vec<u8>>> = vec![None, Some(vec![b'a']), Some(vec![0xff, b'b', b'c'])];
+    let mods: Vec<Option<Vec<u8>>> = vec![None, Some(vec![b'a']), Some(vec![0xff, b'b', b'c']), Some(vec![])];
     let mut tables: Vec<Vec<usize>> = vec![vec![]]; let mut layer: Vec<Vec<usize>> = vec![vec![]];
     for _ in 0..3 { let mut next = vec![]; for l in &layer { for m in 0..mods.len() { let mut t = l.clone(); t.push(m); next.push(t); } } tables.extend(next.iter().cloned()); layer = next; }
     for t in &tables { for sc in 1..=2usize { for rev in [false, true] {
